@@ -319,15 +319,49 @@ fn seed_text(ch: &mut Chooser) -> String {
     }
 }
 
+/// Renames one identifier of the document consistently to a name that starts with (or contains)
+/// non-ASCII letters: object ids preferably. The document stays as well-formed as it was.
+fn rename_non_ascii(ch: &mut Chooser, text: &str) -> String {
+    let mut toks: Vec<String> = tokenize(text).into_iter().map(|t| t.to_owned()).collect();
+    let is_ident = |t: &str| t.starts_with(|c: char| c.is_ascii_lowercase()) && t.chars().all(|c| c.is_ascii_alphanumeric() || c == '_');
+    // identifiers that follow `id :`
+    let mut ids: Vec<String> = vec![];
+    let sig: Vec<usize> = toks.iter().enumerate().filter(|(_, t)| !t.trim().is_empty()).map(|(k, _)| k).collect();
+    for w in sig.windows(3) {
+        if toks[w[0]] == "id" && toks[w[1]] == ":" && is_ident(&toks[w[2]]) {
+            ids.push(toks[w[2]].clone());
+        }
+    }
+    let pool: Vec<String> = if !ids.is_empty() && ch.chance(4, 5) { ids } else { toks.iter().filter(|t| is_ident(t) && !matches!(t.as_str(), "import" | "id" | "function" | "let" | "const" | "return" | "if" | "else" | "switch" | "case" | "default" | "break" | "true" | "false" | "null" | "this" | "as" | "console" | "qsTr")).cloned().collect() };
+    if pool.is_empty() {
+        return text.to_owned();
+    }
+    let old = ch.pick(&pool).clone();
+    let new = format!("{}{}", ch.pick(&["é", "été", "ß", "日本", "Ω", "ñ_", "éB", "\u{10400}", "ö1"]), if ch.chance(1, 2) { old.as_str() } else { "" });
+    for t in toks.iter_mut() {
+        if *t == old {
+            *t = new.clone();
+        }
+    }
+    toks.concat()
+}
+
 pub fn gen_input(ch: &mut Chooser) -> String {
     match ch.weighted(&[20, 60, 20]) {
         0 => {
             ch.label("family-well-formed");
-            seed_text(ch)
+            let t = seed_text(ch);
+            if ch.chance(1, 5) {
+                ch.label("non-ascii-identifier");
+                rename_non_ascii(ch, &t)
+            } else {
+                t
+            }
         }
         1 => {
             ch.label("family-mutated");
             let a = seed_text(ch);
+            let a = if ch.chance(1, 8) { ch.label("non-ascii-identifier"); rename_non_ascii(ch, &a) } else { a };
             let b = if ch.chance(1, 4) { seed_text(ch) } else { String::new() };
             mutate(ch, &a, &b)
         }
@@ -410,17 +444,17 @@ pub fn run_fuzz_campaign(env: &Env, known: &Known, rr: &mut RunResult) {
             let _ = std::fs::write(corpus.join(format!("gen{i}.qml")), src);
         }
     }
-    let runs: u64 = std::env::var("QV_FUZZ_RUNS").ok().and_then(|v| v.parse().ok()).unwrap_or(250_000);
-    let jobs = 16;
+    let runs: u64 = std::env::var("QV_FUZZ_RUNS").ok().and_then(|v| v.parse().ok()).unwrap_or(40_000);
+    let jobs = 8;
     let out = Command::new(&exe)
         .arg(&corpus)
         .args([
             format!("-runs={runs}"),
             format!("-seed={}", env.seed + 1),
-            "-max_len=4096".into(),
+            "-max_len=2048".into(),
             "-len_control=0".into(),
             "-timeout=60".into(),
-            "-rss_limit_mb=6000".into(),
+            "-rss_limit_mb=4000".into(),
             "-print_final_stats=1".into(),
             format!("-artifact_prefix={}/", arts.display()),
             format!("-jobs={jobs}"),
